@@ -22,7 +22,7 @@ ASSUMPTIONS = ["z3 decides the posted aux-variable program correctly (SAT answer
                "primitive route: stand-in semantics of graph-active-vertices-connected = induced-subgraph connectivity"]
 REQUIRED = ["avc.pointwise", "avc.oracle.valid", "avc.oracle.invalid", "avc.acyclic", "avc.primitive", "avc.grid", "avc.form.neg",
             "avc.form.expr", "avc.form.const", "avc.accepted_set_solves", "msolve.model_checked", "mwire.exchanges", "avc.random_graphs",
-            "avc.one_vertex", "avc.disconnected_graph"]
+            "avc.one_vertex", "avc.disconnected_graph", "avc.winding_grids", "avc.long_paths"]
 
 
 def plan(tier):
@@ -36,6 +36,7 @@ def oracle(n, edges, acyclic):
 
 
 def graph_case(ctx, n, edges, acyclic, prim, forms, be, as_array=False):
+    edges = D.scramble(ctx.rng, edges)  # edge order and orientation as a caller might add them
     g = D.mk_graph(n, edges)
     desc = {"n": n, "edges": [list(e) for e in edges], "acyclic": acyclic, "primitive": prim, "array1d": as_array}
 
@@ -159,6 +160,84 @@ def run(ctx):
                 D.pointwise(ctx, "avc", n, post, oracle(n, edges, acyclic), pats, forms=("var",),
                             desc={"grid": [h, w], "acyclic": acyclic, "primitive": False}, rng=rng)
             ctx.count("avc.big_grid_samples", len(pats))
+    # winding regions on larger boards: the induced radius of a snake / spiral far exceeds the board's diameter
+    def snake(h, w, gap_rows=True):
+        act = [[0] * w for _ in range(h)]
+        for y in range(0, h, 2):
+            for x in range(w):
+                act[y][x] = 1
+        for k, y in enumerate(range(1, h - (0 if h % 2 == 0 else 1), 2)):
+            if y + 1 < h:
+                act[y][w - 1 if k % 2 == 0 else 0] = 1
+        return tuple(v for row in act for v in row)
+
+    def spiral(h, w):
+        act = [[0] * w for _ in range(h)]
+        y, x, dy, dx = 0, 0, 0, 1
+        act[0][0] = 1
+        for _ in range(h * w):
+            ny, nx = y + dy, x + dx
+            ahead2 = (ny + dy, nx + dx)
+            ok = 0 <= ny < h and 0 <= nx < w and not act[ny][nx]
+            if ok:
+                # keep a one-cell gap to the previous coil
+                for ay, ax in ((ny + dy, nx + dx), (ny - dx, nx + dy) if False else (ny + dx, nx - dy)):
+                    pass
+                if 0 <= ahead2[0] < h and 0 <= ahead2[1] < w and act[ahead2[0]][ahead2[1]]:
+                    ok = False
+            if not ok:
+                dy, dx = dx, -dy
+                ny, nx = y + dy, x + dx
+                a2 = (ny + dy, nx + dx)
+                if not (0 <= ny < h and 0 <= nx < w) or act[ny][nx] or (0 <= a2[0] < h and 0 <= a2[1] < w and act[a2[0]][a2[1]]):
+                    break
+            act[ny][nx] = 1
+            y, x = ny, nx
+        return tuple(v for row in act for v in row)
+
+    winding = [(5, 6), (6, 5), (6, 6), (7, 7), (4, 9), (9, 4), (5, 8), (3, 9)]
+    for k, (h, w) in enumerate(winding):
+        if not ctx.mine(k + 3):
+            continue
+        n = h * w
+        edges = G.grid_edges(h, w)
+        base = [snake(h, w), spiral(h, w), tuple(snake(w, h)[x * h + y] for y in range(h) for x in range(w))]
+        pats = []
+        for b in base:
+            pats.append(b)
+            q = list(b)
+            ones = [i for i, v in enumerate(q) if v]
+            q[rng.choice(ones)] = 0  # cut the snake somewhere: usually disconnects it
+            pats.append(tuple(q))
+            q = list(b)
+            zeros = [i for i, v in enumerate(q) if not v]
+            if zeros:
+                q[rng.choice(zeros)] = 1  # add a cell: may close a cycle
+                pats.append(tuple(q))
+        for acyclic in (False, True):
+            def post(s, act, h=h, w=w, acyclic=acyclic):
+                graph.active_vertices_connected(s, BoolArray2D(act, (h, w)), acyclic=acyclic)
+
+            with ctx.guard(900):
+                D.pointwise(ctx, "avc", n, post, oracle(n, edges, acyclic), pats, forms=("var",),
+                            desc={"grid": [h, w], "acyclic": acyclic, "primitive": False, "winding": True}, rng=rng)
+        ctx.count("avc.winding_grids")
+    # long paths and cycles as explicit graphs (rank range must reach n - 1)
+    for k, n in enumerate([6, 7, 9, 12, 15]):
+        if not ctx.mine(k + 7):
+            continue
+        for cyc in (False, True):
+            edges = [(i, i + 1) for i in range(n - 1)] + ([(n - 1, 0)] if cyc else [])
+            pats = [tuple([1] * n), tuple([1] * (n - 1) + [0]), tuple([0] + [1] * (n - 1)), tuple(1 if i != n // 2 else 0 for i in range(n)),
+                    tuple(rng.randint(0, 1) for _ in range(n))]
+            for acyclic in (False, True):
+                e2 = D.scramble(rng, edges)
+                g = D.mk_graph(n, e2)
+                with ctx.guard(300):
+                    D.pointwise(ctx, "avc", n, lambda s, act, g=g, acyclic=acyclic: graph.active_vertices_connected(s, act, g, acyclic=acyclic),
+                                oracle(n, e2, acyclic), pats, forms=("var",), desc={"n": n, "edges": [list(e) for e in e2], "acyclic": acyclic,
+                                                                                 "primitive": False}, rng=rng)
+        ctx.count("avc.long_paths")
     # random larger graphs with parallel edges, random patterns (valid patterns forced in: BFS-grown sets)
     for k in range(12 if not thorough else 200):
         n, edges = random_graph(rng, 12 if thorough else 8)
